@@ -44,15 +44,25 @@ def evaluate(n, p, named, default_or):
 
 
 def precondition(t, names):
-    """no negation strictly between a named element and a term it covers; named elements are not negations themselves
-    covering (their reported status is the status of the negated term in luqum's convention)"""
+    """the statement's precondition: no negation lies strictly between a named element and a term it covers.  A term (a leaf, or a range /
+    fuzzy / proximity taken as a whole) is covered by its nearest named ancestor-or-self; the nodes strictly between the two must not be
+    negations (the named element itself may be one: its reported status is that of the negated term, luqum's convention)."""
     named = set(names.values())
-    for p, n in paths_of(t):
-        if p in named:
-            for p2, n2 in paths_of(n, p):
-                if p2 != p and isinstance(n2, (T.Not, T.Prohibit)) and not n.children == ():
-                    if not any(q[:len(p2)] == p2 or p2[:len(q)] == q and q != p for q in named if q != p):
-                        return False      # a negation strictly between the named element and a term it covers
+    nodes = dict(paths_of(t))
+    for p, n in nodes.items():
+        is_term = not n.children or type(n).__name__ in ("Range", "Fuzzy", "Proximity")
+        if not is_term:
+            continue
+        if any(type(nodes[p[:k]]).__name__ in ("Range", "Fuzzy", "Proximity") for k in range(len(p))):
+            continue                                  # inside a range / fuzzy / proximity: not a term of its own
+        q = p
+        while q not in named and q:
+            q = q[:-1]
+        if q not in named:
+            continue                                  # not covered by any named element
+        for k in range(len(q) + 1, len(p)):
+            if isinstance(nodes[p[:k]], (T.Not, T.Prohibit)):
+                return False
     return True
 
 
